@@ -116,9 +116,6 @@ Definition check_case (c : case) : bool :=
       (match enforcement_error l with RLimit k _ => first =? k + 1 | _ => first =? 0 end)
   end.
 
-Definition sig_shape_bound (K Rl : N) (sets : list (list (nat * option nat))) : N :=
-  fold_right (fun sigs a => N.min Rl (fold_right (fun s b => N.min K (N.of_nat (fst s)) + b) 0 sigs) + a) 0 sets.
-
 (* --- specification oracles (no model functions below this line except Gen constants) --- *)
 
 Fixpoint count_accepted (k : N) (ops : list lop) (ob : list obs) : N :=
